@@ -47,7 +47,7 @@ func gen(t *rapid.T) *Case {
 	}
 	np := rapid.IntRange(0, 6).Draw(t, "nperturb")
 	for i := 0; i < np; i++ {
-		c.Perturbs = append(c.Perturbs, Perturb{Leaf: vlib.GenLeafSels(t, uni, 1, 1, "pl")[0], Kind: rapid.SampledFrom([]string{"change", "delete", "extra", "extra"}).Draw(t, "pk")})
+		c.Perturbs = append(c.Perturbs, Perturb{Leaf: vlib.GenLeafSels(t, uni, 1, 1, "pl")[0], Kind: rapid.SampledFrom([]string{"change", "delete", "extra", "extra", "respell"}).Draw(t, "pk")})
 	}
 	return c
 }
@@ -118,11 +118,26 @@ func Exec(c *Case) (nontrivial bool, labels []string, fail *vlib.Failure) {
 		_ = h.DS.TransactionConfirm(ctx, ri.Name)
 	}
 	// perturb the running store
+	respelled := false
 	for _, pt := range c.Perturbs {
 		p, v := uni.Resolve(pt.Leaf, palette)
 		switch pt.Kind {
 		case "delete":
 			_ = env.Cache.Modify(ctx, h.DSName, &cache.Opts{Store: cachepb.Store_CONFIG}, [][]string{p.Slice(true)}, nil)
+		case "respell":
+			// the device reports the value it holds in another representation (same denotation)
+			cur, err := vlib.DumpFlat(ctx, env.Cache, h.DSName, cachepb.Store_CONFIG)
+			if err != nil {
+				harnessErr(err)
+			}
+			if d, ok := cur.Conf()[p.Canon()]; ok {
+				if tv := vlib.RespellTV(p.Node(), d); tv != nil {
+					if err := vlib.WriteRawTV(ctx, env.Cache, h.DSName, cachepb.Store_CONFIG, p, tv); err != nil {
+						harnessErr(err)
+					}
+					respelled = true
+				}
+			}
 		case "change", "extra":
 			// change: a different value of the domain; extra: whatever the selection says (often an unhandled path)
 			if pt.Kind == "change" {
@@ -201,6 +216,9 @@ func Exec(c *Case) (nontrivial bool, labels []string, fail *vlib.Failure) {
 	lab := map[string]bool{}
 	for k := range cats {
 		lab[k] = true
+	}
+	if respelled {
+		lab["running-value-respelled"] = true
 	}
 	// one cycle on the recording streams
 	streams := map[string]sdcpb.DataServer_WatchDeviationsServer{}
